@@ -19,10 +19,20 @@ MANIFEST = dict(
           "datasource.{h,cpp}, dataset.cpp and the generator headers are re-translated from the source on every run. The "
           "extracted model is compared exactly with the real library (ASan+UBSan) on random schemas over the 12 feature "
           "types, masks, generator stacks, sample lists and drop/shuffle histories; the property's own oracle runs in "
-          "the harness against a shadow copy of the stored values. The gradient generator's float kernel is searched "
-          "(views agree bit-exactly, missing pattern), not proved."),
-    note=("Coq kernel; translator (kernel group c08); extraction (ExtrOcamlBasic); harness + OCaml driver; ASan+UBSan "
-          "library build with NDEBUG as shipped; values are integers exactly representable in every storage type; "
+          "the harness against a shadow copy of the stored values. The gradient generator is modelled at the value level "
+          "with Coq's primitive binary64 floats (C08_Gradient.v: make_kernel3x3 for sobel/scharr/prewitt, gradient3x3 for "
+          "gradx/grady/magnitude in the code's operation order, the 12 window offsets / input size / output dims / "
+          "(channel, mode) mapping translated from gradient.h and elemwise_gradient.{h,cpp}); theorems: all window reads and "
+          "output writes in bounds, generated feature <-> (channel, mode) bijection, characterisation of gx/gy/magnitude, "
+          "constant finite image => gx = gy = magnitude = +0 exactly, magnitude >= 0 or NaN, left-right flip negates gx "
+          "(over an abstract scalar structure), the flatten segment of a gradient feature = its select view = the row-major "
+          "gradient image (NaN if the source is missing). The values gx, gy, magnitude of every select / flatten line "
+          "are compared BIT FOR BIT with the extracted model, the angle (std::atan2) within 1e-12."),
+    note=("Coq kernel; primitive floats (= IEEE binary64 of the host; FloatAxioms in Print Assumptions of the float facts); "
+          "translator (kernel group c08); extraction (ExtrOcamlBasic + ExtrOCamlFloats, coq-core.kernel Float64); harness + "
+          "OCaml driver (Float.atan2 instantiates the model's atan2); ASan+UBSan "
+          "library build with NDEBUG as shipped; values are integers exactly representable in every storage type and in double "
+          "(gradient images: the full range of 8/16/32-bit types, +-2^52 for 64-bit types, +-2^24 for float32); "
           "shuffle permutations are taken from dataset_t::shuffled (std::shuffle is not modelled); empty sample lists "
           "excluded (Eigen minCoeff on an empty vector)."),
     technique="Coq proof over a translated+extracted model, differential correspondence, direct property oracle under ASan+UBSan",
@@ -133,6 +143,7 @@ def run(tier, replay=None):
         nrep += 1
     # 3. correspondence with the extracted model
     mism, checked = [], 0
+    gstats = {}
     drv = None
     try:
         drv = vlib.build_ocaml("c08_driver", "c08_model.ml", "c08_driver.ml", floats=True)
@@ -146,6 +157,10 @@ def run(tier, replay=None):
                 mism.append(l)
             elif l.startswith("MODEL-DONE"):
                 checked = int(l.split("checked=")[1].split()[0])
+                for key in ("gradient_values_bitexact", "angle_values", "worst_angle_diff"):
+                    mm = re.search(key + r"=(\S+)", l)
+                    if mm:
+                        gstats[key] = float(mm.group(1)) if "diff" in key else int(mm.group(1))
         if rc2 != 0 or not checked:
             r.violation("driver", {"kind": "model driver failed", "out": mout[-2000:]}, no_input=True)
         seen_ops = set()
@@ -170,7 +185,9 @@ def run(tier, replay=None):
     vlib.proof_coverage(r, cres, "make -C coq theories/Properties_C08.vo && coqc theories/Properties_C08.v (Print Assumptions)",
                         ["tools/translate.py (kernel group c08: mask.h, datasource.h/.cpp, dataset.cpp, elemwise_identity.h, "
                          "elemwise.h, pairwise.h, select.h, pairwise_base.cpp, elemwise_gradient.cpp)",
-                         "extraction: ExtrOcamlBasic only; Z/nat/positive extracted as inductives",
+                         "extraction: ExtrOcamlBasic + ExtrOCamlFloats (PrimFloat -> coq-core.kernel Float64 = the host's binary64); "
+                         "Z/nat/positive extracted as inductives",
+                         "the model's atan2 is OCaml's Float.atan2 in the driver (angle compared within 1e-12, not bit for bit)",
                          "ocaml/c08_driver.ml, harness/c08_dataset.cpp (shadow-copy oracle), g++ -fsanitize=address,undefined",
                          "dataset_t::shuffled reports the permutation used by the iterators (std::shuffle / make_rng not modelled)"])
     cov = r.coverage
@@ -189,7 +206,7 @@ def run(tier, replay=None):
         return False
     cov["distinct_nontrivial"] = len(set(l for l in lines if nontrivial(l)))
     cov["rule"] = ("%d random cases: schema of 1..12 features over the 12 feature types (structured dims up to 3x3x2 plus "
-                   "gradient-eligible 3x4/4x3/4x4 images, classes 1..300 incl. 255/256/257, samples 1..200 incl. 7/8/9/63/64/65), "
+                   "gradient-eligible 3x4/4x3/4x4 images (constant / single spike / type limits / random; kernels sobel, scharr, prewitt), classes 1..300 incl. 255/256/257, samples 1..200 incl. 7/8/9/63/64/65), "
                    "random presence masks (all/none/partial), target of any type or absent, writes in random order with "
                    "overwrites and invalid writes, 0..5 generators (identity x4, product, gradient; feature subsets with repeats), "
                    "sample lists (all / reversed / boundary / random with repeats), 0..7 drop/shuffle/undrop/unshuffle steps with "
@@ -197,6 +214,8 @@ def run(tier, replay=None):
                    "distinct observation lines that are a rejection or carry at least one given (non-missing) value") % len(cases)
     cov["op_histogram"] = dict(ops)
     cov["mismatches"] = len(mism)
+    cov["gradient_value_comparisons"] = dict(gstats, rule="gx / gy / magnitude cells of SELT and FLAT lines compared bit for bit "
+                                             "(Int64.bits_of_float) with C08_Gradient.grad_image; angle cells within 1e-12 absolute")
     cov["impl_direct_failures"] = len(impl_fail)
     hist_n, hist_t, hist_g, hist_o = collections.Counter(), collections.Counter(), collections.Counter(), collections.Counter()
     for l in lines:
@@ -222,8 +241,9 @@ def run(tier, replay=None):
                 break
     cov["samples"] = smp or lines[:5]
     cov["unproved_clauses_searched"] = [
-        "gradient generator: values of the 3x3 float kernels are not modelled; searched: flatten segment == select view "
-        "bit-exactly, missing pattern, descriptors, column bookkeeping",
+        "gradient generator: the angle feature (std::atan2, libm) is compared with the model within 1e-12 and with the harness' "
+        "own atan2 oracle, not proved; gx / gy / magnitude are bit-exact against the PrimFloat model; the left-right flip "
+        "fact is proved over an abstract scalar structure only (in binary64 it holds up to the sign of zero)",
         "thread-count independence (1..16 threads are used by the harness; dataset views are not computed in parallel)",
         "the permutation drawn by shuffle() is a bijection of [0,N) (std::shuffle): checked on every shuffle of the run",
         "storage casts: values are exactly representable integers; out-of-range casts are outside the explored domain"]
